@@ -66,10 +66,19 @@ type nextHarnessActionMessage struct {
 
 func (m nextHarnessActionMessage) message() {}
 
-// doneHarnessActionMessage tells the harness that the activity has answered a token
-type doneHarnessActionMessage struct{}
+// leaveHarnessMessage carries the activity's answer for the token that entered it as number seq
+type leaveHarnessMessage struct {
+	seq int
+	rsp IAction
+}
 
-func (m doneHarnessActionMessage) message() {}
+func (m leaveHarnessMessage) message() {}
+
+// interruptHarnessMessage asks, for an interrupting boundary event that fired,
+// whether there still is a token to withdraw
+type interruptHarnessMessage struct{ reply chan bool }
+
+func (m interruptHarnessMessage) message() {}
 
 // rearmHarnessMessage tells the harness that the listener of a non-interrupting
 // boundary event has left for the exception flow
@@ -90,9 +99,13 @@ type harness struct {
 	listeners []func(ctx context.Context) *flow
 	// catches are the boundary events' nodes
 	catches []*catchEvent
-	// tokens counts the tokens inside the activity, withdraw holds the termination
-	// channels of the listener flows armed for them (both owned by run)
-	tokens   int
+	// inside maps the tokens inside the activity (numbered as they enter) to the
+	// channel their flow waits on, withdraw holds the termination channels of the
+	// listener flows armed for them (all owned by run: whether a token leaves by
+	// the activity's answer or is withdrawn by an interrupting boundary event is
+	// decided there, once)
+	seq      int
+	inside   map[int]chan IAction
 	withdraw []chan bool
 }
 
@@ -146,6 +159,7 @@ func newHarness(wr *wiring, idGenerator id.IGenerator, constructor constructor) 
 		wiring:   wr,
 		mch:      make(chan imessage, len(wr.incoming)*2+1),
 		activity: activity,
+		inside:   make(map[int]chan IAction),
 	}
 
 	err = node.eventEgress.RegisterEventConsumer(node)
@@ -177,7 +191,23 @@ func newHarness(wr *wiring, idGenerator id.IGenerator, constructor constructor) 
 			var actionTransformer ActionTransformer
 			if interrupting {
 				actionTransformer = func(sequenceFlowId *schema.IdRef, action IAction) IAction {
-					// every activation can be interrupted, not only the first
+					// every activation can be interrupted, not only the first; an event
+					// that races with the activity's answer interrupts it or comes too
+					// late, never both
+					reply := make(chan bool, 1)
+					select {
+					case node.mch <- interruptHarnessMessage{reply: reply}:
+					case <-ctx.Done():
+						return noAction{}
+					}
+					select {
+					case interrupted := <-reply:
+						if !interrupted {
+							return noAction{}
+						}
+					case <-ctx.Done():
+						return noAction{}
+					}
 					<-node.activity.Cancel()
 					return action
 				}
@@ -234,38 +264,58 @@ func (node *harness) run(ctx context.Context, sender tracing.ISenderHandle) {
 		case msg := <-node.mch:
 			switch m := msg.(type) {
 			case nextHarnessActionMessage:
-				node.tokens++
-				if node.tokens == 1 {
+				if len(node.inside) == 0 {
 					node.arm(ctx)
 					atomic.StoreInt32(&node.active, 1)
 				}
+				node.seq++
+				out := make(chan IAction, 1)
+				node.inside[node.seq] = out
 				node.tracer.Send(ActiveBoundaryTrace{Start: true, Node: node.activity.Element()})
 				in := node.activity.NextAction(ctx, m.flow)
-				out := make(chan IAction, 1)
-				go func(bctx context.Context) {
+				go func(bctx context.Context, seq int) {
 					select {
 					case rsp := <-in:
-						out <- rsp
 						select {
-						case node.mch <- doneHarnessActionMessage{}:
+						case node.mch <- leaveHarnessMessage{seq: seq, rsp: rsp}:
 						case <-bctx.Done():
 						}
 					case <-bctx.Done():
 						return
 					}
-				}(ctx)
+				}(ctx, node.seq)
 				m.response <- out
 			case rearmHarnessMessage:
-				if node.tokens > 0 {
+				if len(node.inside) > 0 {
 					node.listen(ctx, m.listener)
 				}
-			case doneHarnessActionMessage:
-				node.tokens--
-				if node.tokens == 0 {
+			case leaveHarnessMessage:
+				out, present := node.inside[m.seq]
+				if !present {
+					// withdrawn by an interrupting boundary event: the answer comes too late
+					continue
+				}
+				delete(node.inside, m.seq)
+				if len(node.inside) == 0 {
 					atomic.StoreInt32(&node.active, 0)
 					node.disarm()
 				}
+				out <- m.rsp
 				node.tracer.Send(ActiveBoundaryTrace{Start: false, Node: node.activity.Element()})
+			case interruptHarnessMessage:
+				if len(node.inside) == 0 {
+					m.reply <- false
+					continue
+				}
+				// the tokens inside end here, whatever the activity answers later
+				for seq, out := range node.inside {
+					out <- noAction{}
+					delete(node.inside, seq)
+				}
+				atomic.StoreInt32(&node.active, 0)
+				node.disarm()
+				node.tracer.Send(ActiveBoundaryTrace{Start: false, Node: node.activity.Element()})
+				m.reply <- true
 			}
 		case <-ctx.Done():
 			node.tracer.Send(CancellationFlowNodeTrace{Node: node.activity.Element()})
